@@ -162,7 +162,7 @@ func init() {
 	}
 	// C01 (inbox level): exactly-once, content, per-sender order, growth while wrapped.
 	for _, size := range []int{1, 2, 3, 4} {
-		reg("C01", inboxParams{T: 1, M: 5, Size: size, StartMode: 0}, "quick", 99, 99)
+		reg("C01", inboxParams{T: 1, M: 5, Size: size, StartMode: 0}, "quick", 3, 99)
 		reg("C01", inboxParams{T: 2, M: 2, Size: size, StartMode: 0}, "quick", 3, 99)
 		reg("C01", inboxParams{T: 2, M: 3, Size: size, StartMode: 1}, "quick", 2, 4)
 		reg("C01", inboxParams{T: 3, M: 2, Size: size, StartMode: 0}, "thorough", 2, 3)
